@@ -72,6 +72,7 @@ type world struct {
 	own      int         // fresh mode: the only context whose events are applied (-1: all)
 	ticks    int64
 	settleTO bool
+	reentered bool
 	machine  *vm.VirtualMachine
 	repl     *compiler.Compiler
 	replCode *compiler.Code
@@ -140,6 +141,23 @@ func (w *world) apply(ev []any, extra int) {
 	case "f":
 		// a watcher runs as soon as its context is cancelled; waiting is all that can be done
 		w.settle(extra)
+	case "r":
+		// malformed use: another invocation while the VM is running must be refused and change nothing
+		if w.machine != nil {
+			code, err := compile("1")
+			if err == nil {
+				err = w.machine.RunCode(context.Background(), code)
+			}
+			if err == nil || !strings.Contains(err.Error(), "already running") {
+				w.reentered = true
+			}
+			if _, err := w.machine.Call(context.Background(), nil, nil); err == nil || !strings.Contains(err.Error(), "already running") {
+				w.reentered = true
+			}
+			if err := w.machine.Run(context.Background()); err == nil || !(strings.Contains(err.Error(), "already running") || strings.Contains(err.Error(), "no main code")) {
+				w.reentered = true
+			}
+		}
 	}
 }
 
@@ -419,6 +437,8 @@ func runHistory(h *history, out *bufio.Writer) {
 					keep = append(keep, []any{"c", float64(0)})
 				} else if kind == "f" {
 					keep = append(keep, []any{"f", float64(0)})
+				} else if kind == "r" {
+					keep = append(keep, []any{"r", float64(0)})
 				}
 			}
 			fit.Gates = append(fit.Gates, keep)
@@ -446,6 +466,12 @@ func runHistory(h *history, out *bufio.Writer) {
 		}
 		if w.settleTO {
 			shared += " SETTLE-TIMEOUT"
+		}
+		if w.reentered {
+			shared += " REENTER-ACCEPTED"
+		}
+		if f.reentered {
+			fresh += " REENTER-ACCEPTED"
 		}
 		parts = append(parts, fmt.Sprintf("%s|%d|%s|%d", shared, gAfter, fresh, f.g))
 		if !returned {
